@@ -59,6 +59,10 @@ def streams(tier, rng, P, only=None, cases=None):
         # skipped must not depend on the debug level
         srcs += ["Function ADD(A,B){ Result=A+B; } Int X=ADD(60;4); n(X)", "Int N=4; IF(N\u00d72==8){ c }ELSE{ d }", "IF(1 ?){c}ELSE{d}", "INT X=0 WHILE(X<3 @){ X++ c }",
                  "FOR(INT I=0; I<2 ~; I++){ c }", "PRINT(1 ! 2) c", "INT A=(1 ?2) n(60+A)", "INT A=3 IF(A ?>2){ e }ELSE{ f }", "FUNCTION G(A){ RETURN(A) } n(G(60 $4))", "IF(2 \u3042>1){ c }ELSE{ d }"]
+        # the same length texts under different time bases and default lengths, one compilation after another in one process: nothing
+        # computed for one song may be remembered for the next
+        tbsrcs = ["c8 d4. e16", "TimeBase(48) l2 c8 d4. e16", "TimeBase(480) l4 c8 d4. e16", "TimeBase(192) l1 c8 d4. e16 r8", "l8 c8 d4. e16", "TimeBase(960) c8 d4. e16 c", "TimeBase(48) c8 d4. e16 c"]
+        srcs += tbsrcs
         # byte-level layout of the source file: line ends, byte-order mark, line breaks inside strings and comments — the command-line tool
         # must hand the library's entry point the text as it is
         srcs += ['TrackName={"ab\r\ncd"}\r\nl8 cde\r\n', 'Text{"a\rb"} c\rd', "\ufeffc d e", "c\r\nd\r\ne\r\n", "/* x\r\ny */ c\r\n", "PRINT({a\r\nb}) c\r\n",
@@ -88,6 +92,7 @@ def streams(tier, rng, P, only=None, cases=None):
         reqs = []
         for si, s in enumerate(srcs):
             earlier = [rng.choice(srcs) for _ in range(rng.randrange(1, 4))]
+            if s in tbsrcs: earlier = [x for x in tbsrcs if x != s]      # (all the other time bases first)
             reqs.append("objseq en 0 %s %s" % (" ".join(hx(e) for e in earlier), hx(s)))
         for si, line in enumerate(run_oracle(P, reqs, 30.0, tag="c08h")):
             hist[si] = line
